@@ -44,3 +44,11 @@ Theorem C09_search_returns_least_feasible_k : forall (feasible : nat -> bool) (l
   so_res (mpc_solve true lb ub sts) = Solved kopt.
 Proof. exact search_min. Qed.
 Print Assumptions C09_search_returns_least_feasible_k.
+
+(* the checker that decides coverage on every answer of the implementation *)
+From FP Require Import Checkers CheckersProofs.
+Theorem C09_cover_checker_correct : forall E ignore routes,
+  covers_b E ignore routes = true <->
+  forall e, In e E -> ~ In e ignore -> exists r, In r routes /\ In e (EulerProofs1.pairs r).
+Proof. exact covers_b_correct. Qed.
+Print Assumptions C09_cover_checker_correct.
